@@ -678,7 +678,7 @@ func (c Compression) String() string {
 	case 65000:
 		return "Kodak DCR Compressed"
 	case 65535:
-		return "Pentax PEF Compressecase: "
+		return "Pentax PEF Compressed"
 	default:
 		return "Unkown"
 	}
